@@ -459,12 +459,16 @@ var c33FocusSites = []string{
 }
 
 type c33Stats struct {
-	ilv        sync.Map
+	ilv        sync.Map // (case, observed order of the whole history)
+	stepIlv    sync.Map // (graph, concurrent step, observed order of its calls/returns/executions)
+	shapes     sync.Map // observed order alone
+	rerun      atomic.Int64
+	rerunDiff  atomic.Int64
 	histories  atomic.Int64
 	porcKeyOps atomic.Int64
 }
 
-func runC33Case(r *vlib.Run, c *c33Case, rng *vlib.RNG, st *c33Stats) {
+func runC33Case(r *vlib.Run, c *c33Case, rng *vlib.RNG, st *c33Stats) (traceHash uint64, completed bool) {
 	setPerturbation(rng.Fork("perturb"), c33FocusSites)
 	c.cl = c.g.closure()
 	c.up = make([]uint32, c.g.N)
@@ -487,9 +491,19 @@ func runC33Case(r *vlib.Run, c *c33Case, rng *vlib.RNG, st *c33Stats) {
 		return w
 	}
 	violated := false
+	// tainted: the history contains a step in which two Evict calls with overlapping reverse
+	// closures ran concurrently. Recorded in the signature so that the consequences of that
+	// one shape (seen immediately or in a later, sequential step) are told apart from
+	// anything that fails without it.
+	tainted := false
 	viol := func(kind, sig string, extra map[string]any) {
 		violated = true
+		if tainted {
+			sig += " [history has a step with two concurrent Evicts whose reverse closures overlap]"
+		}
 		r.Violation(kind, sig, c.id, witness(extra))
+		r.Eval(fmt.Sprintf("%s|%d|%v", c.g.String(), c.par, c.steps)) // a refuted history is an evaluated history
+		r.Class("histories-refuted")
 	}
 
 	cache := uint32(0) // reference model: exactly which keys are memoised
@@ -503,6 +517,24 @@ func runC33Case(r *vlib.Run, c *c33Case, rng *vlib.RNG, st *c33Stats) {
 		c.mu.Lock()
 		execFrom, obsFrom := len(c.execs), len(c.obs)
 		c.mu.Unlock()
+		{
+			var seen uint32
+			for _, op := range step.Ops {
+				if op.Kind != "evict" {
+					continue
+				}
+				var m uint32
+				for _, k := range op.Keys {
+					if k < c.g.N {
+						m |= c.up[k]
+					}
+				}
+				if seen&m != 0 {
+					tainted = true
+				}
+				seen |= m
+			}
+		}
 		start := make(chan struct{})
 		var ops []*c33OpRes
 		for _, op := range step.Ops {
@@ -711,21 +743,8 @@ func runC33Case(r *vlib.Run, c *c33Case, rng *vlib.RNG, st *c33Stats) {
 						closed = false
 					}
 				}
-				var seen, shared uint32
-				for _, o := range ops {
-					if o.op.Kind == "evict" {
-						var m uint32
-						for _, k := range o.op.Keys {
-							if k < c.g.N {
-								m |= c.up[k]
-							}
-						}
-						shared |= seen & m
-						seen |= m
-					}
-				}
 				sw["model"] = "run: cache |= closure(roots); evict(k): drop k and its cached dependents; the final Keys() must be the cache of some linearisation"
-				viol("evict.not-linearizable", fmt.Sprintf("Keys() after a concurrent step of Runs and Evicts is not the cache of any linearisation: closed under dependencies=%v, concurrent Evicts with overlapping reverse closures=%v", closed, shared != 0), sw)
+				viol("evict.not-linearizable", fmt.Sprintf("Keys() after a concurrent step of Runs and Evicts is not the cache of any linearisation (closed under dependencies=%v)", closed), sw)
 				return
 			case porcupine.Unknown:
 				r.Inconclusive("C33: porcupine timeout (whole-state model)")
@@ -786,11 +805,17 @@ func runC33Case(r *vlib.Run, c *c33Case, rng *vlib.RNG, st *c33Stats) {
 			evs = append(evs, ev{e.seq, fmt.Sprintf("x%d.%d", e.key, e.label-ops[0].label)})
 		}
 		sort.Slice(evs, func(i, j int) bool { return evs[i].t < evs[j].t })
+		var stepTrace strings.Builder
 		for _, e := range evs {
-			trace.WriteString(e.s)
-			trace.WriteByte(' ')
+			stepTrace.WriteString(e.s)
+			stepTrace.WriteByte(' ')
 		}
+		trace.WriteString(stepTrace.String())
 		trace.WriteByte('|')
+		if len(ops) > 1 {
+			st.stepIlv.Store(vlib.Hash64(fmt.Sprintf("%s|%d|%v|%s", c.g.String(), c.par, step, stepTrace.String())), true)
+			st.shapes.Store(vlib.Hash64(stepTrace.String()), true)
+		}
 	}
 
 	if !c.exec.VerifPermitsFree(int64(c.par)) {
@@ -833,6 +858,9 @@ func runC33Case(r *vlib.Run, c *c33Case, rng *vlib.RNG, st *c33Stats) {
 	if effectiveEvict {
 		r.Class("history-with-effective-eviction")
 	}
+	if tainted {
+		r.Class("history-with-overlapping-concurrent-evicts")
+	}
 	if concurrentStep {
 		r.Class("history-with-concurrent-step")
 	}
@@ -841,6 +869,7 @@ func runC33Case(r *vlib.Run, c *c33Case, rng *vlib.RNG, st *c33Stats) {
 	if c.id == "rnd/0" || c.id == "dag4/0" {
 		r.Sample("history:"+c.id, witness(map[string]any{"trace": trace.String()}))
 	}
+	return h, true
 }
 
 func stepShape(nRuns int) string {
@@ -867,8 +896,8 @@ func TestC33(t *testing.T) {
 	})
 
 	small := allSmallDAGs()
-	nSmall := r.N(600, len(small)*45)
-	nRnd := r.N(1400, 34000)
+	nSmall := r.N(1500, len(small)*150)
+	nRnd := r.N(4500, 120000)
 	var st c33Stats
 	pars := []int{1, 2, 4, 16}
 	reps := 1
@@ -914,16 +943,35 @@ func TestC33(t *testing.T) {
 			if rep > 0 {
 				prng = vlib.NewRNG(rng.Uint64() + uint64(rep))
 			}
-			runC33Case(r, c, prng, &st)
+			h1, ok := runC33Case(r, c, prng, &st)
+			// schedule diversity: every 8th history is run a second time on a fresh executor
+			// under another perturbation seed, and the observed orders are compared
+			if ok && rep == 0 && !r.Replaying() && i%8 == 0 {
+				c2 := &c33Case{id: id, g: c.g, par: c.par, steps: c.steps, cl: c.cl, up: c.up}
+				if h2, ok2 := runC33Case(r, c2, rng.Fork("rerun"), &st); ok2 {
+					st.rerun.Add(1)
+					if h1 != h2 {
+						st.rerunDiff.Add(1)
+					}
+				}
+			}
 		}
 	})
 	nI := 0
 	st.ilv.Range(func(_, _ any) bool { nI++; return true })
-	r.ClassN("distinct-interleavings-observed", int64(nI))
+	r.ClassN("distinct-(history,observed-order)-pairs", int64(nI))
+	nI = 0
+	st.stepIlv.Range(func(_, _ any) bool { nI++; return true })
+	r.ClassN("distinct-(concurrent-step,observed-order)-pairs", int64(nI))
+	nI = 0
+	st.shapes.Range(func(_, _ any) bool { nI++; return true })
+	r.ClassN("distinct-observed-orders-of-a-concurrent-step", int64(nI))
+	r.ClassN("histories-run-twice", st.rerun.Load())
+	r.ClassN("histories-run-twice-with-a-different-observed-order", st.rerunDiff.Load())
 	r.ClassN("histories-completed", st.histories.Load())
 	r.ClassN("porcupine-per-key-operations", st.porcKeyOps.Load())
 	if !r.Quick() {
-		r.Extra("small_dag_enumeration", fmt.Sprintf("all %d labelled DAGs on <=4 nodes, each with >=45 histories", len(small)))
+		r.Extra("small_dag_enumeration", fmt.Sprintf("all %d labelled DAGs on <=4 nodes, each with 150 histories", len(small)))
 	}
 	if missing := reportHooks(r, []string{"incr.run.beforeCAS", "incr.run.beforeExecute", "incr.run.follower", "incr.wait.parked", "incr.evict.locked"}); len(missing) > 0 && !r.Replaying() {
 		r.Inconclusive(fmt.Sprintf("C33: hook sites never reached (schedule perturbation / follower paths not exercised): %v", missing))
